@@ -114,6 +114,7 @@ func checkC09(c *Ctx) {
 	c09Scenes(c)
 	c09Nested(c)
 	c09Reentrant(c)
+	c09OtherPlatforms(c)
 	c09EndToEnd(c)
 }
 
